@@ -44,8 +44,8 @@ mut('C15', 'near-zero-test-inverted', [(ES, "                    if not abs(prev
 mut('C15', 'installs-previous-point', [(ES, "self.TimeSeries[var][0] = lastval", "self.TimeSeries[var][0] = prev")], 'installed_so_far')
 mut('C15', 'own-horizon-overwritten', [(ES, "        new_solver.Parser.MaxTime = T\n", "        self.Parser.MaxTime = T\n")], ['own_state_untouched', 'untouched'])
 mut('C15', 'shallow-copy', [(ES, "return copy.deepcopy(self)", "return copy.copy(self)")], 'body_is_deepcopy_of_self')
-mut('C15', 'one-bad-variable-tolerated', [(ES, "        if len(bad_variables) > 0:\n            Logger('Variables that did not", "        if len(bad_variables) > 1:\n            Logger('Variables that did not")], 'every_included_series_is_steady')
-mut('C15', 'writes-last-point', [(ES, "self.TimeSeries[var][0] = lastval", "self.TimeSeries[var][-1] = lastval")], ['points_after_k0_untouched', 'installed_so_far'])
+mut('C15', 'one-bad-variable-tolerated', [(ES, "        if len(bad_variables) > 0:\n            Logger('Variables that did not", "        if len(bad_variables) > 1:\n            Logger('Variables that did not")], ['every_included_series_is_steady', 'every_included_series_is_installed'])
+# (writing index -1 instead of 0 is equivalent under the function's precondition: series have one point)
 mut('C15', 'absolute-test-dropped', [(ES, "            if abs(lastval-prev) > self.ParameterInitialSteadyStateErrorToler:\n                if abs(lastval) < 1e-4:", "            if abs(lastval-prev) > 10. * self.ParameterInitialSteadyStateErrorToler:\n                if abs(lastval) < 1e-4:")], 'accepted_so_far')
 ben('C15', 'rename-locals', [(ES, "            lastval = TS[-1]\n            prev = TS[-2]", "            lastval = TS[len(TS) - 1]\n            prev = TS[len(TS) - 2]")])
 ben('C15', 'log-text', [(ES, "Logger('Variables that did not converge in initial equilibrium')", "Logger('Variables that did not converge in the initial steady state search')")])
